@@ -651,7 +651,25 @@ Example example_in_scope :
   end.
 Proof. vm_compute. repeat split; reflexivity. Qed.
 
+(* ---- the name_fits condition is needed: a query for the two labels "a\" and 63 x 'x'.
+        The reference parser accepts it; the dotted text "a\.xxx...x." re-splits (the "\." is
+        read as an escaped dot) into ONE label of 65 bytes, so the decoder rejects it, and it
+        is outside the vocabulary ---- *)
+Definition example_unfit : bytes :=
+  [0;0; 0;0; 0;1; 0;0; 0;0; 0;0; 2;97;92; 63] ++ repeat 120 63 ++ [0; 0;12; 0;1].
+
+Example example_unfit_out_of_scope :
+  wf_bytesb example_unfit = true /\
+  match ref_parse example_unfit with
+  | Some rm => map (fun q => labels_okb (fq_name q)) (fm_questions rm) = [true] /\
+               map (fun q => name_fitsb_labels (fq_name q)) (fm_questions rm) = [false] /\
+               within_vocabularyb rm = false /\ decode example_unfit = Err
+  | None => False
+  end.
+Proof. vm_compute. repeat split; reflexivity. Qed.
+
 Print Assumptions read_name_ref.
+Print Assumptions dotted_fits_simple.
 Print Assumptions read_one_rr_ref.
 Print Assumptions read_questions_step_ref.
 Print Assumptions decode_agrees_with_reference.
